@@ -19,6 +19,14 @@ mod common;
 pub mod config;
 mod workers;
 
+/// Verification hooks: re-exports of otherwise private items
+#[cfg(feature = "verif")]
+pub mod verif_api {
+    pub use crate::common::*;
+    pub use crate::workers::socket::verif_api::*;
+    pub use crate::workers::swarm::verif_api::*;
+}
+
 pub const APP_NAME: &str = "aquatic_http: HTTP BitTorrent tracker";
 pub const APP_VERSION: &str = env!("CARGO_PKG_VERSION");
 
@@ -143,7 +151,21 @@ pub fn run(config: Config) -> ::anyhow::Result<()> {
         let handle: JoinHandle<anyhow::Result<()>> = Builder::new()
             .name("signals".into())
             .spawn(move || {
+                #[cfg(feature = "verif")]
+                if let aquatic_common::verif::ProbeAction::Return =
+                    aquatic_common::verif::probe("http:signals:start", 0)
+                {
+                    return Ok(());
+                }
+
                 for signal in &mut signals {
+                    #[cfg(feature = "verif")]
+                    if let aquatic_common::verif::ProbeAction::Return =
+                        aquatic_common::verif::probe("http:signals:loop", 0)
+                    {
+                        return Ok(());
+                    }
+
                     match signal {
                         SIGUSR1 => {
                             let _ = update_access_list(&config.access_list, &state.access_list);
